@@ -15,7 +15,7 @@ impl Compiler {
             && self.module_aliases.contains(module_name)
         {
             let qualified_name = format!("{}::{}", module_name, member);
-            let global_idx = self.get_or_create_global_index(&qualified_name);
+            let global_idx = self.get_or_create_global_index(&qualified_name)?;
             self.accessed_globals.insert(qualified_name.clone());
 
             if global_idx <= 255 {
